@@ -594,11 +594,9 @@ func (w *Writer) Write(f feat.Feature) (n int, err error) {
 			if err != nil {
 				return
 			}
-			_, err = w.w.Write([]byte{'\n'})
-			if err != nil {
-				return
-			}
-			n++
+			var _n int
+			_n, err = w.w.Write([]byte{'\n'})
+			n += _n
 		}()
 		n, err = fmt.Fprintf(w.w, "%s\t%s\t%s\t%d\t%d\t",
 			f.SeqName,
@@ -617,16 +615,16 @@ func (w *Writer) Write(f feat.Feature) (n int, err error) {
 			} else {
 				_n, err = fmt.Fprintf(w.w, "%.*f", w.Precision, *f.FeatScore)
 			}
-			if err != nil {
-				return n, err
-			}
 			n += _n
-		} else {
-			_, err = w.w.Write([]byte{'.'})
 			if err != nil {
 				return n, err
 			}
-			n++
+		} else {
+			_n, err = w.w.Write([]byte{'.'})
+			n += _n
+			if err != nil {
+				return n, err
+			}
 		}
 		_n, err = fmt.Fprintf(w.w, "\t%s\t%s",
 			f.FeatStrand,
@@ -638,16 +636,16 @@ func (w *Writer) Write(f feat.Feature) (n int, err error) {
 		}
 		if f.FeatAttributes != nil {
 			_n, err = fmt.Fprintf(w.w, "\t%v", f.FeatAttributes)
+			n += _n
 			if err != nil {
 				return n, err
 			}
-			n += _n
 		} else if f.Comments != "" {
-			_, err = w.w.Write([]byte{'\t'})
+			_n, err = w.w.Write([]byte{'\t'})
+			n += _n
 			if err != nil {
-				return
+				return n, err
 			}
-			n++
 		}
 		if f.Comments != "" {
 			_n, err = fmt.Fprintf(w.w, "\t%s", f.Comments)
